@@ -52,6 +52,7 @@ type world struct {
 	acc     util.Uint160    // the committee = validator 1-of-1 multisig account (holds the NEO and GAS)
 	pub     *keys.PublicKey // its key
 	proxy   *neotest.Contract
+	proxyID int32
 	sys     map[string]sysMethod // system call name -> proxy method
 	noArgs  []string             // linked system calls the proxy has no dummy arguments for
 	relays  []relayInfo
@@ -233,8 +234,14 @@ func buildProxy(sender util.Uint160, pub []byte, tokenTarget util.Uint160, token
 	}
 	add("noop", anyT, false)
 	emit.Opcodes(bw, opcode.PUSH1, opcode.RET)
+	// onNEP17Payment(from, amount, data): Put(ctx, "cf", GetCallFlags()) — records the flags the native callback runs with
 	add("onNEP17Payment", smartcontract.VoidType, false, smartcontract.Hash160Type, smartcontract.IntegerType, anyT)
-	emit.Opcodes(bw, opcode.DROP, opcode.DROP, opcode.DROP, opcode.RET)
+	emit.Opcodes(bw, opcode.DROP, opcode.DROP, opcode.DROP)
+	emit.Syscall(bw, interopnames.SystemContractGetCallFlags)
+	emit.Bytes(bw, []byte("cf"))
+	emit.Syscall(bw, interopnames.SystemStorageGetContext)
+	emit.Syscall(bw, interopnames.SystemStoragePut)
+	emit.Opcodes(bw, opcode.RET)
 	add("_deploy", smartcontract.VoidType, false, anyT, smartcontract.BoolType)
 	// Put(ctx, "k0", "v0") so that Get/Delete/Find have something to see
 	emit.Opcodes(bw, opcode.DROP, opcode.DROP)
@@ -280,6 +287,20 @@ func buildRelay(sender util.Uint160, n int, groups []int, perms []aPerm, hashOfI
 	emit.Opcodes(bw, opcode.DUP)
 	emit.Syscall(bw, interopnames.SystemContractGetCallFlags)
 	emit.Opcodes(bw, opcode.APPEND, opcode.RET)
+	// dyn(hash, method): LoadScript(inner, All, [hash, method]); inner = System.Contract.Call(hash, method, All, [[]])
+	dynOff := w.Len()
+	{
+		inner := io.NewBufBinWriter()
+		emit.InitSlot(inner.BinWriter, 0, 2)
+		emit.Opcodes(inner.BinWriter, opcode.NEWARRAY0, opcode.PUSH1, opcode.PACK, opcode.PUSH15, opcode.LDARG1, opcode.LDARG0)
+		emit.Syscall(inner.BinWriter, interopnames.SystemContractCall)
+		emit.Opcodes(inner.BinWriter, opcode.RET)
+		emit.InitSlot(bw, 0, 2)
+		emit.Opcodes(bw, opcode.LDARG1, opcode.LDARG0, opcode.PUSH2, opcode.PACK, opcode.PUSH15)
+		emit.Bytes(bw, inner.Bytes())
+		emit.Syscall(bw, interopnames.SystemRuntimeLoadScript)
+		emit.Opcodes(bw, opcode.RET)
+	}
 	if w.Err != nil {
 		panic(w.Err)
 	}
@@ -297,6 +318,8 @@ func buildRelay(sender util.Uint160, n int, groups []int, perms []aPerm, hashOfI
 		m.ABI.Methods = append(m.ABI.Methods, manifest.Method{Name: md.name, Offset: 0, Safe: md.safe, ReturnType: smartcontract.ArrayType,
 			Parameters: []manifest.Parameter{{Name: "path", Type: smartcontract.ArrayType}}})
 	}
+	m.ABI.Methods = append(m.ABI.Methods, manifest.Method{Name: "dyn", Offset: dynOff, ReturnType: smartcontract.AnyType,
+		Parameters: []manifest.Parameter{{Name: "hash", Type: smartcontract.Hash160Type}, {Name: "method", Type: smartcontract.StringType}}})
 	h := state.CreateContractHash(sender, ne.Checksum, m.Name)
 	for _, g := range groups {
 		k := groupKey(g)
@@ -365,6 +388,9 @@ func newWorld(hf int) *world {
 	w.relays = plan
 	w.proxy, w.sys, w.noArgs = buildProxy(w.acc, w.pub.Bytes(), ids[1], callflag.All)
 	w.e.DeployContract(w.tb, w.proxy, nil)
+	if cs := bc.GetContractState(w.proxy.Hash); cs != nil {
+		w.proxyID = cs.ID
+	}
 	return w
 }
 
